@@ -38,6 +38,7 @@ import (
 	"fmt"
 	"math/rand"
 	"reflect"
+	"runtime/debug"
 	"sort"
 	"strings"
 
@@ -795,6 +796,9 @@ func uniq(xs []string) []string {
 
 func run(c core.Case, verbose bool) core.Result {
 	env.Quiet()
+	// encodeRelease allocates a ~1 MB flate writer per record; with the default GC target the
+	// worker spends most of its time in GC cycles over a tiny live heap.
+	debug.SetGCPercent(1000)
 	var d caseData
 	core.U(c, &d)
 	var res core.Result
